@@ -36,12 +36,12 @@ impl Scenario for C15S {
     }
     fn count(&self, tier: Tier, _variant: &str) -> u64 {
         match tier {
-            Tier::Quick => BASE,
-            Tier::Thorough => BASE * 12,
+            Tier::Quick => BASE * 2,
+            Tier::Thorough => BASE * 100,
         }
     }
     fn rule(&self) -> &'static str {
-        "enumeration: attachment count 0..300 x mixture (senders | receivers | regions | mixed) x data part (empty | small | exactly one packet | one byte over | multi-packet); each case with a receiver thread that probes every received attachment, then a normal follow-up message; thorough repeats the enumeration under 12 seeded schedules and both SO_SNDBUF settings; non-trivial = more than 60 attachments; distinct = distinct (count, mixture, data part, schedule hash)"
+        "enumeration: attachment count 0..300 x mixture (senders | receivers | regions | mixed) x data part (empty | small | exactly one packet | one byte over | multi-packet); each case with a receiver thread that probes every received attachment, then a normal follow-up message; quick runs the enumeration under 2 seeded schedules / SO_SNDBUF settings, thorough under 100; non-trivial = more than 60 attachments; distinct = distinct (count, mixture, data part, schedule hash)"
     }
     fn gen(&self, seed: u64, idx: u64, _tier: Tier, _variant: &str) -> Value {
         let rep = idx / BASE;
